@@ -1740,6 +1740,50 @@ mod zst {
         }
         (experiments, bad)
     }
+    // both children of a par node panic in one dispatch: one of the payloads reaches the caller of
+    // dispatch (no abort, nothing swallowed), and the next dispatch runs both leaves once
+    pub static PANIC_ON: AtomicBool = AtomicBool::new(false);
+    pub struct Pn<const K: usize>;
+    impl<'a, const K: usize> System<'a> for Pn<K> {
+        type SystemData = ();
+        fn run(&mut self, _: ()) {
+            RUNS[K].fetch_add(1, SeqCst);
+            if PANIC_ON.load(SeqCst) {
+                panic!("harness leaf {} panics", K);
+            }
+        }
+    }
+    pub fn check_panics() -> (u64, Vec<String>) {
+        let mut bad = vec![];
+        let mut experiments = 0u64;
+        for threads in [1usize, 2, 4] {
+            let pool = rayon::ThreadPoolBuilder::new().num_threads(threads).build().unwrap();
+            for inside in [true, false] {
+                let w = World::empty();
+                let mut ps = ParSeq::new(shred::par![Pn::<0>, Pn::<1>,], &pool);
+                experiments += 1;
+                let ctx = format!("par![P0, P1] on a pool of {} thread(s), called from {} the pool", threads, if inside { "inside" } else { "outside" });
+                PANIC_ON.store(true, SeqCst);
+                let r = std::panic::catch_unwind(std::panic::AssertUnwindSafe(|| if inside { pool.install(|| ps.dispatch(&w)) } else { ps.dispatch(&w) }));
+                PANIC_ON.store(false, SeqCst);
+                match r {
+                    Ok(()) => bad.push(format!("{}: both leaves panic, but dispatch returned normally", ctx)),
+                    Err(p) => {
+                        let m = crate::common::panic_message(&p);
+                        if m != "harness leaf 0 panics" && m != "harness leaf 1 panics" {
+                            bad.push(format!("{}: both leaves panic; the caller receives {:?}, not the payload of one of them", ctx, m));
+                        }
+                    }
+                }
+                reset();
+                let r = std::panic::catch_unwind(std::panic::AssertUnwindSafe(|| if inside { pool.install(|| ps.dispatch(&w)) } else { ps.dispatch(&w) }));
+                if r.is_err() || counts(2) != vec![1, 1] {
+                    bad.push(format!("{}: the dispatch after the caught panic {} and ran the leaves {:?} times (once each expected)", ctx, if r.is_err() { "panicked" } else { "returned" }, counts(2)));
+                }
+            }
+        }
+        (experiments, bad)
+    }
     /// (description, counts seen, counts expected) for every configuration that went wrong
     pub fn check() -> (u64, Vec<String>) {
         let mut bad = vec![];
@@ -1788,6 +1832,12 @@ pub fn run(args: &Args, rep: &mut Report) {
         rep.add("static_trees_of_zero_sized_leaves_dispatched", n);
         if let Some(b) = bad.first() {
             rep.violate(PROP, "impl", "", format!("{} (expected 3 each)", b), vec!["static-zst-trees".to_string()]);
+        }
+        mark_current(&["static-zst-trees".to_string()]);
+        let (n, bad) = zst::check_panics();
+        rep.add("static_trees_in_which_both_par_children_panic", n);
+        if let Some(b) = bad.first() {
+            rep.violate(PROP, "impl", "par-panics", b.clone(), vec!["static-zst-trees".to_string()]);
         }
         let (n, bad) = zst::check_overlap();
         rep.add("static_trees_with_hints_whose_par_children_must_meet", n);
